@@ -33,6 +33,11 @@ def families(maxk):
     out.append(G(8, 11, [(8, [9, 1, 2, 3]), (8, [10, 1, 2, 4]), (8, [9, 7, 2, 4]), (8, [10, 7, 2, 3]), (9, [5]), (10, [5])], 3, "two-tries-swapped-k3"))
     # the lookahead continues after a reduction: S: A a b | T d | B a c ; T: A a ; A: e ; B: e  (1 a 2 b 3 c 4 d 5 e; S=6 A=7 B=8 T=9)
     out.append(G(6, 10, [(6, [7, 1, 2]), (6, [9, 4]), (9, [7, 1]), (6, [8, 1, 3]), (7, [5]), (8, [5])], 2, "lookahead-after-reduction-k2"))
+    # two states with equal LALR(1) rows and equivalent successors whose lookahead automata choose in opposite ways (only the automaton
+    # tells them apart, which matters to minimizeDFA): S: p e x | q e x | p A a b | p B a c | q A a c | q B a b ; A: e ; B: e
+    # (1 p 2 q 3 e 4 x 5 a 6 b 7 c; S=8 A=9 B=10)
+    out.append(G(8, 11, [(8, [1, 3, 4]), (8, [2, 3, 4]), (8, [1, 9, 5, 6]), (8, [1, 10, 5, 7]), (8, [2, 9, 5, 7]), (8, [2, 10, 5, 6]), (9, [3]), (10, [3])], 2,
+                 "equal-rows-opposite-automata-k2"))
     return out
 
 
@@ -77,7 +82,7 @@ def run(ctx):
         for c in vlib.read_ndjson(rec2):
             if not c["compiles"][0]["err"] and c["t"]["UsedLADepth"] > 0 and len(specs) < (200 if thorough else 40):
                 s = {x: c[x] for x in lc.GKEYS if x in c}
-                s["cfg"] = dict(optimize=False, defaultReduce=False, minimize=False, events=False)
+                s["cfg"] = dict(optimize=False, defaultReduce=False, minimize=len(specs) % 2 == 1, events=False)
                 s["L"] = 5
                 specs.append(s)
     out = rt.rtgen(ctx, specs, "lak")
